@@ -19,7 +19,9 @@ What "denotes the state" means for a returned object:
 Hardening items (STRENGTHEN_BRIEF H1/H2/H5): graph_conversions.input_forms_repeat_frames (weighted / attributed networkx
 graphs, int / float matrices), density_conversions.input_forms_repeat_frames (dtype / memory layout),
 stabilizer_conversions.repeat_frames, convert_representation.chains_copies (chains of conversions, alias names, copies) -
-every conversion twice on the same object, arguments bit-for-bit unchanged; their domains are restricted by construction
+every conversion twice on the same object, arguments bit-for-bit unchanged; graph_conversions.insertion_order (networkx
+graphs whose nodes were inserted in another order than sorted label order: every graph entry point must use ONE qubit
+numbering, the k-th inserted node = qubit k); their domains are restricted by construction
 to the classes the known findings cannot reach (canonical or validate=False / + signs / qubit 0 with X / mixed=False).
 
 Where the unchanged tree fails a clause for a whole, describable class of inputs, that class is driven by its own item so
@@ -711,6 +713,129 @@ def chains(inp):
     return None
 
 
+# ------------------------------------------------------------------ hardening: insertion order != sorted label order (H5)
+def _nxgraph_ordered(adj, order):
+    """labels 0..n-1, adjacency `adj` BY LABEL, nodes inserted in the order `order` (so g.nodes() lists `order`)"""
+    nx = _nx()
+    g = nx.Graph()
+    g.add_nodes_from([int(u) for u in order])
+    n = len(adj)
+    for i in range(n):
+        for j in range(i + 1, n):
+            if adj[i][j]:
+                g.add_edge(i, j)
+    assert list(g.nodes()) == [int(u) for u in order]
+    return g
+
+
+def _pos_adj(adj, order):
+    """adjacency by insertion position: entry (i, j) = edge between the i-th and the j-th inserted node"""
+    A = np.array(adj, dtype=int)
+    o = [int(u) for u in order]
+    return A[np.ix_(o, o)]
+
+
+def _graph_pos_adj(g, n):
+    """position adjacency of a returned networkx graph, read with own code (no nx.to_numpy_array): k-th listed node = qubit k"""
+    nodes = list(g.nodes())
+    if len(nodes) != n:
+        return f"graph has {len(nodes)} vertices, expected {n}"
+    idx = {u: k for k, u in enumerate(nodes)}
+    B = np.zeros((n, n), dtype=int)
+    for u, v in g.edges():
+        B[idx[u], idx[v]] = B[idx[v], idx[u]] = 1
+    return B
+
+
+@S.item("graph_conversions.insertion_order", site="graphiq.backends.state_rep_conversion:graph_to_density,_graph_to_density_pure,graph_to_stabilizer,"
+        "stabilizer_to_graph,density_to_graph,state_to_graph;graphiq.backends.stabilizer.functions.rep_conversion:get_stabilizer_tableau_from_graph",
+        bound="networkx graphs with labels 0..n-1 whose nodes were INSERTED in an order different from sorted label order: all labelled "
+              "graphs on 3 and 4 vertices x all n! insertion orders under which the edge set is NOT invariant (1296 of the 8*6 + 64*24 = "
+              "1584 pairs), + seeded sample of 5-vertex graphs x insertion "
+              "orders (quick 150, thorough 600); one convention for all entry points - qubit k = the k-th inserted node "
+              "(nx.to_numpy_array without nodelist): graph_to_density (graph and one-element list), graph_to_stabilizer, "
+              "get_stabilizer_tableau_from_graph, get_clifford_tableau_from_graph, DensityMatrix.from_graph, state_to_graph, "
+              "QuantumState(graph) -> s, -> dm, -> s -> g, -> dm -> g, round trips stabilizer_to_graph(graph_to_stabilizer(g)) and "
+              "density_to_graph(graph_to_density(g)); all must denote the refsem state of the graph relabelled by insertion position "
+              "(hence agree with each other); graph unchanged (node order included)",
+        clause="for every graph - in whatever order its nodes were inserted - graph-to-density-matrix and graph-to-stabilizer "
+               "produce the SAME graph state |G> (one qubit numbering), and the inverse conversions recover that G")
+def graph_insertion_order(inp):
+    import graphiq.backends.state_rep_conversion as rc
+    import graphiq.backends.stabilizer.functions.rep_conversion as src
+    from graphiq.backends.density_matrix.state import DensityMatrix
+    from graphiq.state import QuantumState
+
+    adj, order = inp
+    n = len(adj)
+    P = _pos_adj(adj, order)
+    want = core.dm(core.graph_state(P))
+    g = _nxgraph_ordered(adj, order)
+    snap = (list(g.nodes()), _graph_snapshot(g))
+    tag = f"insertion order {list(order)}"
+
+    def one_stab(o):
+        return _stab_tab_dm(o[0][1]) if isinstance(o, list) and len(o) == 1 and o[0][0] == 1.0 else f"returned {o!r:.60}"
+
+    calls = [("graph_to_density", lambda: rc.graph_to_density(g), lambda o: o),
+             ("graph_to_density[list]", lambda: rc.graph_to_density([(1.0, g)]), lambda o: o),
+             ("graph_to_stabilizer", lambda: rc.graph_to_stabilizer(g), one_stab),
+             ("get_stabilizer_tableau_from_graph", lambda: src.get_stabilizer_tableau_from_graph(g), _stab_tab_dm),
+             ("get_clifford_tableau_from_graph", lambda: src.get_clifford_tableau_from_graph(g), lambda o: _cliff_tab_dm(o, n)),
+             ("DensityMatrix.from_graph", lambda: DensityMatrix.from_graph(g).data, lambda o: o)]
+    for name, call, denote in calls:
+        r = _cmp_dm(denote(call()), want, f"{name} ({tag}; expected |G> with qubit k = k-th inserted node)")
+        if r:
+            return r
+        if (list(g.nodes()), _graph_snapshot(g)) != snap:
+            return f"{name} modified the graph it was given ({tag})"
+    # round trips through the real inverse conversions: they must give back the graph by position
+    out = rc.stabilizer_to_graph(rc.graph_to_stabilizer(g))
+    if not (isinstance(out, list) and len(out) == 1 and len(out[0]) == 2):
+        return f"stabilizer_to_graph returned {out!r:.80}"
+    B = _adj_of(out[0][1], n)
+    if isinstance(B, str):
+        return B
+    if not np.array_equal(B, P):
+        return f"stabilizer_to_graph(graph_to_stabilizer(g)) = {B.tolist()} != adjacency by insertion position {P.tolist()} ({tag})"
+    out = rc.density_to_graph(rc.graph_to_density(g))
+    B = _adj_of(out, n) if not isinstance(out, list) else "density_to_graph returned a mixture for a pure graph state"
+    if isinstance(B, str):
+        return B
+    if not np.array_equal(B, P):
+        return f"density_to_graph(graph_to_density(g)) = {B.tolist()} != adjacency by insertion position {P.tolist()} ({tag})"
+    # state_to_graph on the graph: returned graph (read by position) + gates + tableau of the input state
+    out = rc.state_to_graph(g)
+    if not (isinstance(out, tuple) and len(out) == 3 and isinstance(out[2], list)):
+        return f"state_to_graph returned {out!r:.60}"
+    nx = _nx()
+    B = _graph_pos_adj(out[0], n) if isinstance(out[0], nx.Graph) else _adj_of(out[0], n)
+    if isinstance(B, str):
+        return B
+    w, err = _run_gates(core.graph_state(P), n, out[2])
+    if err or not core.same_state(w, core.graph_state(B)):
+        return f"state_to_graph: gates {out[2]} do not map |G> onto |graph> {B.tolist()} ({tag})"
+    r = _cmp_dm(_stab_tab_dm(out[1]), want, f"state_to_graph tableau ({tag})")
+    if r:
+        return r
+    if (list(g.nodes()), _graph_snapshot(g)) != snap:
+        return f"state_to_graph modified the graph it was given ({tag})"
+    # QuantumState holding the graph
+    for b in ("s", "dm"):
+        q = QuantumState(_nxgraph_ordered(adj, order), rep_type="g")
+        q.convert_representation(b)
+        if q.rep_type != b:
+            return f"rep_type is {q.rep_type!r} after convert_representation({b!r})"
+        r = _cmp_dm(_qstate_dm(q, n), want, f"QuantumState(graph, {tag}) g->{b}")
+        if r:
+            return r
+        q.convert_representation("g")
+        r = _cmp_dm(_qstate_dm(q, n), want, f"QuantumState(graph, {tag}) g->{b}->g")
+        if r:
+            return r
+    return None
+
+
 # ------------------------------------------------------------------ domains
 def _graphs(nmax):
     out = []
@@ -846,6 +971,18 @@ def run(tier, seed):
                                                    ],
           nontrivial=lambda p: _nonempty(p[0]))
 
-    S.note("vertex i of a graph is qubit i (vertices 0..n-1 inserted in order); graphs with other vertex labels are not driven")
+    # insertion order != sorted label order (H5): all graphs n=3,4 x all insertion orders; seeded sample for n=5
+    import itertools
+
+    ordered = [[g, list(o)] for g in graphs if len(g) in (3, 4) for o in itertools.permutations(range(len(g)))
+               if not np.array_equal(_pos_adj(g, o), np.array(g, dtype=int))]  # the reordering must move the edge set
+    g5l = [A.tolist() for A in core.all_graphs(5)]
+    for _ in range(600 if thorough else 150):
+        ordered.append([g5l[int(rng.integers(len(g5l)))], [int(x) for x in rng.permutation(5)]])
+    S.map("graph_conversions.insertion_order", ordered,
+          nontrivial=lambda p: not np.array_equal(_pos_adj(p[0], p[1]), np.array(p[0], dtype=int)))
+
+    S.note("vertex i of a graph is qubit i (vertices 0..n-1 inserted in order) except in graph_conversions.insertion_order, where qubit k is the k-th inserted "
+           "vertex; graphs with other vertex labels than 0..n-1 are not driven")
     S.note("the float GF(2) inverse inside _graph_finder/_phase_correction is exercised only through its results")
     return S
